@@ -229,7 +229,9 @@ def build(case, t=None):
     n = len(t)
     rv = (np.arange(n) * 1.25 - 3.0) * u.km / u.s
     err = (0.5 + 0.01 * np.arange(n)) * u.km / u.s
-    if case.get("narrow"):
+    # (times the harness derives from a float32 pattern - reversed, shifted - are in general not float32 numbers: they are handed
+    # over in single precision only when that is exact)
+    if case.get("narrow") and np.array_equal(t.astype(np.float32).astype(float), t):
         t = t.astype(np.float32)
     tt = Time(t, format="mjd", scale="tcb") if case["as_time"] else t
     kw = {}
